@@ -10,7 +10,9 @@ import (
 	"gopkg.in/typ.v4/sync2"
 	"verif/lib/ev"
 	"verif/lib/lin"
+	"verif/lib/maph"
 	"verif/lib/schk"
+	"verif/lib/seqmc"
 	"verif/vrt"
 )
 
@@ -27,19 +29,30 @@ var alphabet = []call{
 	{"LoadAndDelete", 0}, {"LoadAndDelete", 1}, {"Delete", 0}, {"Delete", 1}, {"Range", 0},
 }
 
-// layouts are sequential prefixes that put the map into each representative internal layout.
-var layouts = []struct {
+// layout is a sequential prefix that puts the map into one concrete internal layout.
+type layout struct {
 	name string
-	pre  []call
-}{
-	{"empty", nil},
-	{"a-read-only", []call{{"Store", 0}, {"Load", 0}}},
-	{"a-dirty-only", []call{{"Store", 0}}},
-	{"a-deleted-nil", []call{{"Store", 0}, {"Load", 0}, {"Delete", 0}}},
-	{"a-expunged", []call{{"Store", 0}, {"Load", 0}, {"Delete", 0}, {"Store", 1}}},
-	{"one-miss-short", []call{{"Store", 0}, {"Store", 1}, {"Load", 0}}},
-	{"a-read-b-dirty", []call{{"Store", 0}, {"Load", 0}, {"Store", 1}}},
-	{"both-read", []call{{"Store", 0}, {"Store", 1}, {"Load", 0}, {"Load", 1}}},
+	pre  []seqmc.Op
+}
+
+// allLayouts: EVERY concrete layout a 2-key map can reach (read map, dirty map, amended, miss
+// counter, nil/expunged/live entries, values {1,2}), each with the shortest call sequence that
+// reaches it, computed by the sequential explicit-state search (single worker: deterministic).
+func allLayouts(r *ev.Run) []layout {
+	var out []layout
+	seqmc.Explore(r, seqmc.Config{Name: "layouts", Workers: 1, New: func() seqmc.Sys { return maph.New(2) },
+		OnState: func(path []seqmc.Op) {
+			name := "L" + fmt.Sprint(len(out)) + ":"
+			for _, o := range path {
+				name += fmt.Sprintf("%s%d", o.Name[:2], o.A)
+				if o.Name == "Store" || o.Name == "LoadOrStore" {
+					name += fmt.Sprintf("=%d", o.B)
+				}
+				name += "."
+			}
+			out = append(out, layout{name, append([]seqmc.Op{}, path...)})
+		}})
+	return out
 }
 
 type rec struct {
@@ -94,8 +107,7 @@ func (r *rec) do(th int, c call, val int) {
 	r.ops[th] = append(r.ops[th], o)
 }
 
-func scenario(li int, prog [][]call, bound, raceBound int) schk.Scenario {
-	lay := layouts[li]
+func scenario(lay layout, prog [][]call, bound, raceBound int) schk.Scenario {
 	name := lay.name + "|"
 	for i, p := range prog {
 		if i > 0 {
@@ -106,17 +118,16 @@ func scenario(li int, prog [][]call, bound, raceBound int) schk.Scenario {
 	return schk.Scenario{
 		Name: name, Bound: bound, RaceBound: raceBound,
 		Body: func(s *vrt.Sched) any {
-			r := &rec{m: new(sync2.Map[int, int]), ops: make([][]lin.Op, len(prog)+1)}
-			for i, c := range lay.pre { // sequential set-up (pass-through mode)
-				switch c.op {
-				case "Store":
-					r.m.Store(c.k, 1+i)
-					r.init[c.k] = 1 + i
-				case "Load":
-					r.m.Load(c.k)
-				case "Delete":
-					r.m.Delete(c.k)
-					r.init[c.k] = 0
+			r := &rec{ops: make([][]lin.Op, len(prog)+1)}
+			// sequential set-up (pass-through mode): replay the layout's call sequence
+			h := maph.New(2)
+			for _, o := range lay.pre {
+				h.Apply(o)
+			}
+			r.m = h.M
+			for k, v := range h.Model {
+				if k < lin.Keys {
+					r.init[k] = v
 				}
 			}
 			for t := range prog {
@@ -169,8 +180,16 @@ func scenario(li int, prog [][]call, bound, raceBound int) schk.Scenario {
 func main() {
 	r := ev.Start("C04")
 	var scs []schk.Scenario
-	// 2 threads x 1 call: every unordered pair of calls from every start layout, ALL interleavings
-	for li := range layouts {
+	layouts := allLayouts(r)
+	// a spread-out subset for the larger programs
+	var some []layout
+	for i, l := range layouts {
+		if i%ev.Pick(r, 9, 3) == 0 {
+			some = append(some, l)
+		}
+	}
+	// 2 threads x 1 call: every unordered pair of calls from EVERY reachable layout, ALL interleavings
+	for _, li := range layouts {
 		for i, a := range alphabet {
 			for _, b := range alphabet[i:] {
 				scs = append(scs, scenario(li, [][]call{{a}, {b}}, -1, ev.Pick(r, 1, 2)))
@@ -179,11 +198,11 @@ func main() {
 	}
 	// 3 threads x 1 call: every multiset of three calls on key a plus Range and one call on key b
 	small := []call{{"Load", 0}, {"Store", 0}, {"LoadOrStore", 0}, {"LoadAndDelete", 0}, {"Range", 0}, {"Store", 1}, {"Load", 1}}
-	for li := range layouts {
+	for n, li := range some {
 		for i, a := range small {
 			for j, b := range small[i:] {
 				for _, c := range small[i+j:] {
-					if !r.Thorough() && (li == 0 || li == 7) && a.k+b.k+c.k > 0 {
+					if !r.Thorough() && n%2 == 1 && a.k+b.k+c.k > 0 {
 						continue
 					}
 					scs = append(scs, scenario(li, [][]call{{a}, {b}, {c}}, ev.Pick(r, 2, 3), ev.Pick(r, -2, 1)))
@@ -193,10 +212,7 @@ func main() {
 	}
 	// 2 threads x 2 calls
 	two := []call{{"Load", 0}, {"Store", 0}, {"LoadOrStore", 0}, {"LoadAndDelete", 0}, {"Load", 1}, {"Store", 1}, {"Range", 0}}
-	for li := range layouts {
-		if !r.Thorough() && li%2 == 1 {
-			continue
-		}
+	for _, li := range some {
 		for _, a1 := range two {
 			for _, a2 := range two {
 				for _, b1 := range two {
@@ -216,7 +232,7 @@ func main() {
 	// 4 threads x 1 call (thorough): bound 1
 	if r.Thorough() {
 		four := []call{{"Load", 0}, {"Store", 0}, {"LoadOrStore", 0}, {"LoadAndDelete", 0}, {"Store", 1}}
-		for li := range layouts {
+		for _, li := range some {
 			for i, a := range four {
 				for j, b := range four[i:] {
 					for k, c := range four[i+j:] {
@@ -228,6 +244,7 @@ func main() {
 			}
 		}
 	}
+	r.Set("start_layouts", len(layouts))
 	schk.WorkerExtra = func() map[string]int64 {
 		return map[string]int64{"distinct_histories_judged_by_porcupine": int64(lin.Distinct())}
 	}
@@ -244,7 +261,7 @@ func main() {
 		}
 		add("states")
 		add("transitions")
-		r.Set("rule", "(a) sequential: explicit-state BFS to fixpoint over the real sync2.Map (plain build), alphabet Load/Store/LoadOrStore/LoadAndDelete/Delete x keys x values {1,2}, Range full and stopping after one call, Load of a never-stored key; state = fingerprint of the complete concrete layout (read map, dirty map, amended, misses, nil/expunged/live entries) plus contents; oracle map[K]V. (b) concurrent: controlled scheduler over the instrumented build, from 8 representative start layouts (empty, read-only, dirty-only, deleted-nil, expunged, one miss short of promotion, mixed, both promoted): every unordered pair of single calls from the 11-call alphabet over keys {a,b} under ALL interleavings; multisets of three single calls and pairs of two-call programs under a preemption bound; every complete execution's call/return history (Range decomposed into per-key pseudo-loads inside its interval, final contents read after quiescence) checked for linearizability with porcupine; the pair scenarios also run under the race detector inside every explored schedule")
+		r.Set("rule", "(a) sequential: explicit-state BFS to fixpoint over the real sync2.Map (plain build), alphabet Load/Store/LoadOrStore/LoadAndDelete/Delete x keys x values {1,2}, Range full and stopping after one call, Load of a never-stored key; state = fingerprint of the complete concrete layout (read map, dirty map, amended, misses, nil/expunged/live entries) plus contents; oracle map[K]V. (b) concurrent: controlled scheduler over the instrumented build, from EVERY reachable concrete layout of a 2-key map (computed by the same explicit-state search; a spread-out subset of them for the larger programs): every unordered pair of single calls from the 11-call alphabet over keys {a,b} under ALL interleavings; multisets of three single calls and pairs of two-call programs under a preemption bound; every complete execution's call/return history (Range decomposed into per-key pseudo-loads inside its interval, final contents read after quiescence) checked for linearizability with porcupine; the pair scenarios also run under the race detector inside every explored schedule")
 		r.Assume("Go's atomics are sequentially consistent, so interleaving at the granularity of atomic/mutex operations is exact; memory orderings below the Go memory model are not modelled")
 	})
 }
